@@ -110,11 +110,15 @@ def h_spline(ctx):
     e, n = _coords(cfg["layout"], sh)
     with warnings.catch_warnings():
         warnings.simplefilter("ignore")
+        fkw = {}
+        if cfg.get("explicit_forces"):
+            # forces at the data points, handed over explicitly (copies, in the data's shape)
+            fkw["force_coords"] = (e.copy(), n.copy())
         if cfg["kind"] == "spline":
-            est = vd.Spline(mindist=cfg.get("mindist"))
+            est = vd.Spline(mindist=cfg.get("mindist"), **fkw)
             ncomp = 1
         else:
-            est = vd.VectorSpline2D(poisson=cfg.get("poisson", 0.5), mindist=cfg.get("mindist", 1.0))
+            est = vd.VectorSpline2D(poisson=cfg.get("poisson", 0.5), mindist=cfg.get("mindist", 1.0), **fkw)
             ncomp = 2
     jac = est.jacobian((e, n), (e.ravel(), n.ravel()))
     det = exact_det(jac)
@@ -142,7 +146,10 @@ def h_spline(ctx):
         warnings.simplefilter("ignore")
         est.fit((e, n), darg, warg)
     fc = est.force_coords_ if cfg["kind"] == "spline" else est.force_coords
-    ctx.claim("forces are placed at the raveled data coordinates", And(len(fc) == 2, np.shape(fc[0]) == (npts,), And([eq(a, b) for a, b in zip(fc[0], e.ravel())]), And([eq(a, b) for a, b in zip(fc[1], n.ravel())])))
+    if cfg.get("explicit_forces"):
+        ctx.claim("explicitly given force coordinates are used as given", And(len(fc) == 2, And([eq(a, b) for a, b in zip(np.ravel(fc[0]), e.ravel())]), And([eq(a, b) for a, b in zip(np.ravel(fc[1]), n.ravel())])))
+    else:
+        ctx.claim("forces are placed at the raveled data coordinates", And(len(fc) == 2, np.shape(fc[0]) == (npts,), And([eq(a, b) for a, b in zip(fc[0], e.ravel())]), And([eq(a, b) for a, b in zip(fc[1], n.ravel())])))
     ctx.claim("force coordinates are copies, not the caller's arrays", And(fc[0] is not e, fc[1] is not n, not np.shares_memory(np.asarray(fc[0], dtype=float), e), not np.shares_memory(np.asarray(fc[1], dtype=float), n)))
     pred = est.predict((e, n))
     preds = list(pred) if ncomp > 1 else [pred]
@@ -233,7 +240,14 @@ def h_trend(ctx):
         data[k] = sum(coefs[t] * (p[0] ** t[0] * p[1] ** t[1]) for t in terms)
     sh = tuple(cfg.get("shape", (len(pts),)))
     tr = vd.Trend(deg)
-    tr.fit((e.reshape(sh), n.reshape(sh)), data.reshape(sh))
+    if cfg.get("weights"):
+        # any positive weights: the data are a polynomial exactly, so the weighted fit reproduces it too
+        w = ctx.reals("w", len(pts))
+        for v in w:
+            ctx.assume(v > 0)
+        tr.fit((e.reshape(sh), n.reshape(sh)), data.reshape(sh), w.reshape(sh))
+    else:
+        tr.fit((e.reshape(sh), n.reshape(sh)), data.reshape(sh))
     qe, qn = ctx.real("qe"), ctx.real("qn")
     q = np.empty((1, 1), dtype=object if ctx.sym else float)
     q[0, 0] = qe
@@ -274,6 +288,30 @@ def h_compositions(ctx):
             mag = 1.0 if ctx.sym else max(abs(float(v)) for v in d)
             for i in range(npts):
                 ctx.claim("Chain(Trend, Spline) reproduces the data at the data points", _tol_eq(ctx, pred[i], d[i], 1e-6, mag))
+        elif cfg["kind"] == "chain_kn":
+            # 2x2 arrays with weights through Chain -> Trend.filter -> KNeighbors(k=1)
+            d = ctx.reals("d", npts).reshape((2, 2))
+            w = ctx.reals("w", npts).reshape((2, 2))
+            for v in w.ravel():
+                ctx.assume(v > 0)
+            e2, n2 = e.reshape((2, 2)), n.reshape((2, 2))
+            est = vd.Chain([("trend", vd.Trend(1)), ("nearest", vd.KNeighbors(k=1))])
+            est.fit((e2, n2), d, w)
+            pred = est.predict((e2, n2))
+            ctx.claim("prediction has the data's shape", np.shape(pred) == (2, 2))
+            mag = 1.0 if ctx.sym else max(abs(float(v)) for v in d.ravel())
+            if np.shape(pred) == (2, 2):
+                for idx in np.ndindex(2, 2):
+                    ctx.claim("Chain(Trend, KNeighbors(k=1)) reproduces the data at the data points", _tol_eq(ctx, pred[idx], d[idx], 1e-6, mag))
+        elif cfg["kind"] == "chain_vectors":
+            # vector data through a Chain of Vectors: BaseGridder.filter with several components
+            d0, d1 = ctx.reals("d0", npts), ctx.reals("d1", npts)
+            est = vd.Chain([("first", vd.Vector([vd.Trend(1), vd.Trend(0)])), ("second", vd.Vector([vd.Linear(), vd.Cubic()]))])
+            est.fit((e, n), (d0, d1))
+            p0, p1 = est.predict((e, n))
+            mag = 1.0 if ctx.sym else max(abs(float(v)) for v in list(d0) + list(d1))
+            for i in range(npts):
+                ctx.claim("Chain(Vector(Trend, Trend), Vector(Linear, Cubic)) reproduces each component at the data points", And(_tol_eq(ctx, p0[i], d0[i], 1e-6, mag), _tol_eq(ctx, p1[i], d1[i], 1e-6, mag)))
         else:
             d0, d1 = ctx.reals("d0", npts), ctx.reals("d1", npts)
             est = vd.Vector([vd.Spline(), vd.Linear()])
@@ -294,6 +332,8 @@ def _cfg_spline(tier, seed):
         {"kind": "vector", "layout": "generic4", "poisson": -0.5, "mindist": 0.1, "weights": True, "shape": (2, 2)},
         {"kind": "spline", "layout": "generic4", "first": "offset"},
         {"kind": "spline", "layout": "generic3", "first": "generic4"},
+        {"kind": "spline", "layout": "generic4", "explicit_forces": True, "shape": (2, 2)},
+        {"kind": "vector", "layout": "generic4", "poisson": 0.25, "mindist": 0.5, "explicit_forces": True, "shape": (2, 2)},
     ]
     if tier == "thorough":
         for lay in LAYOUTS:
@@ -333,12 +373,12 @@ HARNESSES = [
     Harness(
         "trend_reproduces_polynomials",
         h_trend,
-        lambda tier, seed: [{"degree": 0}, {"degree": 1}, {"degree": 2}, {"degree": 2, "poly_degree": 1}] + ([{"degree": 3}, {"degree": 3, "poly_degree": 1}, {"degree": 4}, {"degree": 4, "poly_degree": 2}] if tier == "thorough" else [{"degree": 3, "poly_degree": 2}]),
-        bounds="degree 0-3 (quick) / 0-4 (thorough) on a concrete unisolvent layout of (N+1)(N+2)/2 + 2 points (exact rank check); symbolic polynomial coefficients (full or lower degree) and a symbolic query point",
+        lambda tier, seed: [{"degree": 0}, {"degree": 1}, {"degree": 2}, {"degree": 2, "poly_degree": 1}] + ([{"degree": 3}, {"degree": 3, "poly_degree": 1}, {"degree": 4}, {"degree": 4, "poly_degree": 2}] if tier == "thorough" else [{"degree": 3, "poly_degree": 2}]) + [{"degree": 1, "shape": (5, 1), "weights": True}, {"degree": 2, "shape": (2, 4)}],
+        bounds="degree 0-3 (quick) / 0-4 (thorough) on a concrete unisolvent layout of (N+1)(N+2)/2 + 2 points (exact rank check) as 1-D, column or 2-D arrays; symbolic polynomial coefficients (full or lower degree), optional symbolic positive weights and a symbolic query point",
         stubs=["sklearn StandardScaler/LinearRegression -> contracts"],
         extra_globals=_globals,
         engine={"oneshot": True, "timeout_ms": 120000},
         timeout_s=900,
     ),
-    Harness("compositions", h_compositions, {"quick": [{"kind": "chain", "layout": "generic4"}, {"kind": "vector", "layout": "generic4"}]}, bounds="Chain(Trend(1), Spline) and Vector(Spline, Linear) on the generic 4-point layout with symbolic data", extra_globals=_globals, engine={"oneshot": True}),
+    Harness("compositions", h_compositions, {"quick": [{"kind": "chain", "layout": "generic4"}, {"kind": "vector", "layout": "generic4"}, {"kind": "chain_kn", "layout": "generic4"}, {"kind": "chain_vectors", "layout": "generic4"}]}, bounds="Chain(Trend(1), Spline), Vector(Spline, Linear), Chain(Trend(1), KNeighbors(1)) on 2x2 arrays with weights, Chain(Vector(Trend, Trend), Vector(Linear, Cubic)) on the generic 4-point layout with symbolic data", extra_globals=_globals, engine={"oneshot": True}),
 ]
